@@ -18,6 +18,7 @@ from . import families as F
 from .core import Stats, Run, pmap_stats, seeded_order, jsonable
 
 import smoothmath as sm
+from smoothmath import Partial, LocatedDifferential
 
 EXTRA = "extra_coord"
 ITEM_TIME_LIMIT = 300       # seconds of wall clock for all executions on one term (normal: milliseconds)
@@ -254,6 +255,21 @@ def c02_term(fam, t, st: Stats):
                     elif o[0] != "val" or not A.is_finite_real(o[1]):
                         st.violation(case(t, env, label, route, repr(r), o,
                                           f"point of the domain but result is not a finite real: {o}"))
+        # the numeric derivative queries evaluate the expression as well: the same "DomainError exactly outside the
+        # domain" holds for them (reverse sweep and forward rule; the symbolic routes belong to C06 / C07)
+        if vs:
+            v0 = sorted(vs)[0]
+            for route, thunk in (("LocatedDifferential(e, p).component", lambda: LocatedDifferential(A.build(t), A.make_point(env)).component(v0)),
+                                 ("Partial(e, v).at(p) (late)", lambda: Partial(A.build(t), v0).at(A.make_point(env)))):
+                o = A.outcome(thunk)
+                st.inc("transitions")
+                st.outcome(("undef" if want_dom else "def") + "-d->" + o[0])
+                if want_dom and o[0] != "dom":
+                    st.violation(case(t, env, "tree", route, repr(r), o,
+                                      f"sub-expression outside its domain ({r.why}) but the numeric derivative query gave {o}"))
+                elif not want_dom and o[0] == "dom":
+                    st.violation(case(t, env, "tree", route, repr(r), o,
+                                      "DomainError raised by a numeric derivative query at a point of the domain"))
 
 
 def _irrelevant_undefined(t, env) -> bool:
